@@ -239,6 +239,19 @@ def p_enumerate(I, n, pos, kw):
     return ObjV(None, dict(inner=pos[0]), tag="enumerate")
 
 
+@prim("joblib.delayed", "joblib.parallel.delayed")
+def p_delayed(I, n, pos, kw):
+    # delayed(f) — calling the result records (f, args, kwargs) for Parallel to run
+    return ObjV(None, dict(func=pos[0]), tag="delayed")
+
+
+@prim("joblib.Parallel", "joblib.parallel.Parallel")
+def p_parallel(I, n, pos, kw):
+    # Parallel(n_jobs=...) — calling the result on an iterable of delayed calls runs them and returns the results in
+    # the order of the iterable (joblib's documented contract; trusted)
+    return ObjV(None, dict(kwargs=dict(kw)), tag="parallel")
+
+
 @prim("builtins.zip")
 def p_zip(I, n, pos, kw):
     return ObjV(None, dict(items=list(pos)), tag="zip")
